@@ -47,6 +47,15 @@ def expiry_gate():
     return gen_gate("ExpiryCheck", EXPIRY_THEOREMS, 3)
 
 
+# Gen/ConsumerCheck.v (C06, C12, C15): the suspension points Model/ConcSub.v was written from
+CONSUMER_THEOREMS = ["deltio_pull_handler_as_modelled", "deltio_stream_handler_as_modelled",
+                     "deltio_pull_request_as_modelled", "deltio_actor_loop_as_modelled"]
+
+
+def consumer_gate():
+    return gen_gate("ConsumerCheck", CONSUMER_THEOREMS, 3)
+
+
 def push_gate():
     return gen_gate("PushCheck", PUSH_THEOREMS, 3)
 
